@@ -35,6 +35,20 @@ def pos_to_fen(p):
     return "%s %s %s %s %d %d" % ("/".join(rows), p["stm"], castle, ep, p["half"], p["full"])
 
 
+def forced_roots():
+    """The section of corpus/mates.fen with a single legal root move (a forced mate behind it)."""
+    out, on = [], False
+    for l in open(os.path.join(CORPUS, "mates.fen")):
+        l = l.strip()
+        if l.startswith("# forced mates behind a single legal move"):
+            on = True
+        elif l.startswith("# no forced mate"):
+            on = False
+        elif on and l and not l.startswith("#"):
+            out.append(l)
+    return out
+
+
 def corpus_fens():
     return [l.strip() for l in open(os.path.join(CORPUS, "positions.fen")) if l.strip() and not l.startswith("#")]
 
@@ -439,6 +453,15 @@ def check_c03(pid, tier, seed):
         f[5] = str(max(int(f[5]), int(f[4]) // 2 + 1))
         sid += 1
         sessions.append({"id": sid, "steps": [{"fen": " ".join(f), "depth": rnd.choice([1, 2, 3]), "seed": rnd.randrange(1 << 30), "workers": rnd.choice([1, 1, 2]), "tables": 8, "buckets": 1024, "tag": "high-clock"}]})
+    # roots where the side to move is lost whatever it plays (every move is answered by mate in one, for some only by a capture),
+    # their colour mirrors, and roots with a single legal move: a report is owed all the same
+    special = [l.strip() for l in open(os.path.join(CORPUS, "doomed.fen")) if l.strip() and not l.startswith("#")]
+    special += [mirror_fen(f) for f in special]
+    special += forced_roots()
+    for i, f in enumerate(special if not quick else special[seed % 2::2]):
+        for d in ((1, 3) if quick else (1, 2, 3, 4)):
+            sid += 1
+            sessions.append({"id": sid, "steps": [{"fen": f, "depth": d, "seed": rnd.randrange(1 << 30), "workers": 1 + (i + d) % 2, "tables": 8, "buckets": 1024, "tag": "lost-or-forced-root"}]})
     # histories: earlier searches on the same memory - variants of the root that differ only in castling rights /
     # en-passant state (generated by the specification), neighbours in the game, unrelated positions
     outs = textgen(chk, wd, "hash", os.path.join(wd, "pf.move.ndjson"), NPROC * (4 if quick else 1), range(NPROC), "h")
@@ -811,6 +834,14 @@ def check_c17(pid, tier, seed):
     # the repository's own scenario
     sid += 1
     sessions.append({"id": sid, "steps": [{"fen": "8/8/8/8/8/k2r4/8/K7 b - - 0 1", "depth": 3, "seed": 1, "workers": 1, "tag": "repo-scenario"}]})
+    # roots outside the tablebase families that still hold a castling right: the recorded successors are the ones reached by the
+    # quiet king / rook moves that give the right up (the recorded key and the key met in the search must still agree)
+    hroots = [l.strip().split(" | ") for l in open(os.path.join(CORPUS, "history_roots.txt")) if l.strip() and not l.startswith("#")]
+    for i, h in enumerate(hroots if not quick else hroots[seed % 2::2]):
+        root, succs = h[0], [x.strip() for x in h[1].split(";")]
+        for d in (3, 4):
+            sid += 1
+            sessions.append({"id": sid, "steps": [{"fen": root, "depth": d, "seed": rnd.randrange(1 << 30), "workers": 1, "history": succs, "tag": "castling-right-history"}]})
     traces = run_scripts(wvbin, wd, "c17", sessions)
     validate_search_traces(chk, traces, pid, files=files)
     # white box: every history hit / probe of the workers against the model's HistoryHit rule
